@@ -91,6 +91,13 @@ for _c in CHECKS.values():
     pass
 ENGINES[0]["serves_properties"] = sorted(CHECKS)
 
+CHECKS["C27"] = {
+    "technique": "exhaustive model-based testing: macro signatures x call shapes, nested with blocks vs reference binder",
+    "text": "Every macro signature with 0-3 parameters (no default / literal default / late-bound variable default) x every call with 0-4 positional and 0-3 keyword arguments (matching, foreign and duplicate names) is rendered with a body printing every parameter, args and kwargs and compared with a reference binder written from docs/optional_tags.md; random nested with blocks are compared with a scope-stack model (arguments evaluated in the enclosing scope, visible only inside, outer values restored).",
+    "design_ref": "DESIGN.md §4 C27",
+    "note": "Trusts the ~40-line binder in vf/props/c27_macro_with.py. Argument values are string literals and one late-bound variable; expression-valued arguments are covered by C01/C02 templates.",
+}
+
 NOT_APPLICABLE = [
     {"property_id": p, "reason": "check not built yet in this round (work in progress; see DESIGN.md §4 for the planned oracle)"}
     for p in ALL
